@@ -202,6 +202,12 @@ def to_events(exe):
             if cur[0] == "quit":
                 finished = True
             continue
+        if t[0] == "rcmd":
+            # a command run by a probe from inside its call-back (reaction): same block, but a release it
+            # performs is the application's
+            if len(t) > 2 and t[1] == "rel" and t[2] in names:
+                app_rel = names[t[2]]
+            continue
         if t[0] == "rc" and len(t) >= 3:
             k, o = t[1], t[2]
             if k == "i":
@@ -429,6 +435,7 @@ def well_formed(cmds):
     regs = {}          # request -> pipe it is registered on
     stall = any(c.split()[0] in ("new", "cnew") and c.split()[2] in STALL_TYPES for c in cmds if len(c.split()) > 2)
     outof, kinds, released = {}, {}, False
+    gone = set()       # handles a reaction (onev ... rel X) may have released: only the epilogue may name them again
     need_who = set()   # handles whose object id has not been announced yet (`who` right after the creation:
                        # without it the application's reference on the object is unknown to the trace)
     for c in cmds:
@@ -438,6 +445,15 @@ def well_formed(cmds):
             need_who.discard(t[1])
         elif need_who and any(x in need_who for x in t[1:]):
             return False
+        if k == "onev":
+            # onev <pipe> <event> rel <handle>: the probe of <pipe> releases <handle> when it catches <event>
+            if len(t) != 5 or t[3] != "rel" or t[1] not in live or t[4] not in live or t[4] in regs.values():
+                return False
+            gone.add(t[4])
+            continue
+        if gone and k not in ("rel", "flush") and not (k == "out" and len(t) > 2 and t[2] == "se"):
+            if any(x in gone for x in t[1:]):
+                return False
         if k in ("new", "cnew", "sink", "sub"):
             need_who.add(t[1])
         if k in ("new", "cnew") and len(t) > 2:
@@ -1202,6 +1218,8 @@ def gen_random(rng, info, quick):
     has_stall = any(t in STALL_TYPES for t in held.values())
     released_one = False
     nrelsink = 0
+    nreact = 0
+    maybe_gone = []    # handles a reaction may have released (the epilogue releases them again: harmless)
 
     def can_input():
         return [n for n in held if held[n] == "sink" or
@@ -1273,6 +1291,18 @@ def gen_random(rng, info, quick):
             del held[p]
             fd_ok.discard(p)
             outof.pop(p, None)
+        elif k < 72 and len(hp) >= 2 and nreact < 2 and not has_stall:
+            # a reaction: when the probe of x catches an event, the application releases y from inside the call-back
+            x = rng.choice(hp)
+            y = rng.choice([n for n in hp if held[n] != "qsrc"] or hp)
+            if y in reqs.values() or held[y] == "qsrc":
+                continue
+            cmds.append("onev %s %s rel %s" % (x, rng.choice(["source_end", "new_flow_def", "dead", "need_output"]), y))
+            nreact += 1
+            del held[y]
+            fd_ok.discard(y)
+            outof.pop(y, None)
+            maybe_gone.append(y)
         elif k < 75:
             cmds.append("loop")
         elif k < 77:
@@ -1396,6 +1426,17 @@ def directed():
         e = Exe(body + epilogue_for(body), "directed set(get()) (%s)" % ty, 0)
         e.nbody = len(body)
         out.append(e)
+    # the application reacts to an event from inside the probe: it releases other pipes (re-entrancy)
+    body = ["new p0 dup", "who p0", "sub q0 p0", "who q0", "sub q1 p0", "who q1", "sub q2 p0", "who q2",
+            "onev q0 source_end rel q0", "onev q0 source_end rel q1", "onev q0 source_end rel q2", "rel p0", "rcs"]
+    e = Exe(body + epilogue_for(body), "directed reaction: outputs released on the first source_end", 0)
+    e.nbody = len(body)
+    out.append(e)
+    body = ["new p0 dup", "who p0", "sub q0 p0", "who q0", "sub q1 p0", "who q1", "setfd p0 bA",
+            "onev q0 new_flow_def rel q1", "sink s0", "who s0", "out q0 s0", "setfd p0 bB", "in p0 1 8", "rcs"]
+    e = Exe(body + epilogue_for(body), "directed reaction: sibling released on new_flow_def", 2)
+    e.nbody = len(body)
+    out.append(e)
     body = ["cnew p1 stream_switcher", "who p1", "sub q0 p1", "who q0", "rel p1", "setfd q0 bA", "rcs"]
     e = Exe(body + epilogue_for(body), "directed sub-pipe controls its released super pipe", 0)
     e.nbody = len(body)
